@@ -291,7 +291,10 @@ def correspondence(chk, mods):
 # ---------------------------------------------------------------- e2e
 
 OUT_OF_SCOPE_FOR_ARBITRARY_MAPS = ('map:overlap-warning:other', 'map:overlap-warning:inside-block',
-                                   'map:map-address-not-in-code-block', 'map:two-instructions-warning')
+                                   'map:map-address-not-in-code-block', 'map:two-instructions-warning',
+                                   # an arbitrary address set may name a byte inside the END-straddling last
+                                   # instruction: the directive there comes from the map, not from sna2ctl
+                                   'map:overlap-warning:end-straddling-instruction-over-directive')
 
 
 def overlap_cause(mods, case, info, x, y):
@@ -432,6 +435,8 @@ def replay(chk, data):
     mods = dict(zip(MODS, fresh_import(*['skoolkit.' + m for m in MODS])))
     case = data['case']
     fails, info = E.run_case(mods, case, chk.scratch, cause=lambda x, y, i: overlap_cause(mods, case, i, x, y))
+    if case.get('map_kind') in ('arbitrary', 'dense'):
+        fails = [(k, d) for k, d in fails if k not in OUT_OF_SCOPE_FOR_ARBITRARY_MAPS]   # same scope rule as evaluate()
     for k, d in fails:
         print(f'  {k}: {d}')
     print('  sna2ctl ' + ' '.join(info['args']))
